@@ -176,19 +176,25 @@ theorem node_chain_wf {head c : Bag} {tail : List Bag} (hh : head.WF) (ht : ∀ 
   connectAll_wf hh ht h
 
 /-- **From the container to the value the compiled field returns** (C02 with C01): for a well-formed, acyclic bag whose
-compiled graph (`Bag.compileGraph`: `TreeNode.from_edges` and `Graph(inputs, node)`) passes the executable check of the VM
-theorems, with every used input bound, no scheduled failure and no impure function, the stack machine stops and returns
+edges are of the simple kinds (`EdgeK.wf`), the graph compiled for a field (`Bag.compileGraph`: `TreeNode.from_edges` and
+`Graph(inputs, node)`) satisfies the hypotheses of `vm_correct` (`node_compile_ok`), and with every used input bound, no scheduled failure and no impure function, the stack machine stops and returns
 exactly the value of the term the output node computes - by `node_connect_step` the composition of the layers' functions -
 evaluated by the specification; or raises exactly the error that evaluation gives. -/
 theorem node_pipeline_value {b : Bag} {o : BNode} {t : BTerm} (hb : b.WF) (hac : acyclicB b.edges = true)
-    (hok : (b.compileGraph o).okB = true) (env : String → Option Val) (w : World)
+    (hwf : ∀ e ∈ b.edges, e.edge.wf = true) (env : String → Option Val) (w : World)
     (hc : CallOK (b.compileGraph o) env) (hf : w.failAt = []) (hp : w.impureFns = [])
     (hd : BDen b o t) (hnm : t.NoMissing) :
     ∃ N out steps, (∀ fuel, N ≤ fuel → (b.compileGraph o).call env w fuel = some (out, steps)) ∧
       match (t.den (denCfgOf env w)).v with
       | .ok v => ∃ s, out = .done (.val v) s
       | .error e => ∃ s, out = .raised e s :=
-  pipeline_value hb hac hok env w hc hf hp hd hnm
+  pipeline_value hb hac hwf env w hc hf hp hd hnm
+
+/-- every graph compiled from a checked bag satisfies the hypotheses of `vm_correct`: parents before children (the order in which
+`peel`, the model of `detect_cycles`, hands out the edges is topological), declared inputs are leaves, simple edges -/
+theorem node_compile_ok {b : Bag} {o : BNode} (hb : b.WF) (hwf : ∀ e ∈ b.edges, e.edge.wf = true) :
+    GraphOK (b.compileGraph o) :=
+  compile_ok hb.outs hb.inLeaf hwf
 
 /-- the term function the driver runs is sound for the relation the theorems talk about -/
 theorem node_term_sound (b : Bag) (fuel : Nat) (n : BNode) (t : BTerm) (h : b.term fuel n = some t) : BDen b n t :=
@@ -206,7 +212,7 @@ example : exSource.wfB = true ∧ exTransform.wfB = true ∧ (connectBags exSour
 example : (match connectBags exSource exTransform with
     | .ok c => c.wfB && acyclicB c.edges &&
         (match byName c.outputs "image" with
-         | some o => (c.compileGraph o).okB && ((c.term 100 o).map BTerm.noMissingB == some true)
+         | some o => c.edges.all (·.edge.wf) && (c.compileGraph o).okB && ((c.term 100 o).map BTerm.noMissingB == some true)
          | none => false)
     | .error _ => false) = true := by
   decide +kernel
